@@ -69,6 +69,9 @@ func init() {
 }
 
 func runC17(c *Ctx, r *Report) {
+	importFoundation(c, r, "C17", "interactive")
+	r.Rule("C17/always-fetches-prompt", "AcquirePriv reports success only after it fetched the device's prompt (every level stays reachable whatever the device did in between)", 1)
+	checkAcquireAlwaysFetchesPrompt(c, r, "C17/always-fetches-prompt")
 	r.Rule("C17/search-window", "prompt searches look at a suffix of the buffer that starts on a line boundary and keeps every line of a multi-line prompt pattern", 4)
 	importObligations(r, func(sub *Report) { checkSearchDepth(c, sub) }, "C01/search-depth", "C17/search-window")
 	platformLevelsSeen = nil
